@@ -63,11 +63,17 @@ theorem chk_goLines (cfg : Cfg) (st : LState) (ls : List Str) :
     simp only
     split
     · exact chk_stepLine _ _ _
-    · intro e he
-      rw [enqueued_append] at he
-      rcases List.mem_append.mp he with h | h
-      · exact chk_stepLine _ _ _ e h
-      · exact ih _ e h
+    · split
+      · intro e he
+        rw [enqueued_append] at he
+        rcases List.mem_append.mp he with h | h
+        · exact chk_stepLine _ _ _ e h
+        · exact chk_flushBlock _ _ e h
+      · intro e he
+        rw [enqueued_append] at he
+        rcases List.mem_append.mp he with h | h
+        · exact chk_stepLine _ _ _ e h
+        · exact ih _ e h
 
 /-- what holds of every entry of the queue: its chain starts at the top-level file, has no duplicates, consists of
     files that exist, and does not contain the entry's own target -/
@@ -211,9 +217,13 @@ theorem nf_goLines (cfg : Cfg) (st : LState) (ls : List Str) : NoFuelRaise (goLi
     simp only
     split
     · exact nf_stepLine _ _ _
-    · unfold NoFuelRaise at *
-      simp only [List.mem_append, not_or]
-      exact ⟨nf_stepLine _ _ _, ih _⟩
+    · split
+      · unfold NoFuelRaise at *
+        simp only [List.mem_append, not_or]
+        exact ⟨nf_stepLine _ _ _, nf_flushBlock _ _⟩
+      · unfold NoFuelRaise at *
+        simp only [List.mem_append, not_or]
+        exact ⟨nf_stepLine _ _ _, ih _⟩
 
 theorem nf_serve (ll : Nat) (fs : FS) (dir : Str) (e : QEntry) : NoFuelRaise (serve ll fs dir e) := by
   unfold serve NoFuelRaise
